@@ -208,6 +208,8 @@ def verify_function(qual, prop, program=None, reg=None, self_cls=None, tag=None,
         rep.trusted = set(E.trusted)
         return rep
     rep.obligations = list(E.obls.values())
+    for ob in rep.obligations:
+        ob.uses_rec = bool(getattr(E, "recfns", None))  # see solve.discharge: such proofs need agreeing seeds
     rep.trusted = set(E.trusted)
     rep.inlined = set(E.inlined)
     rep.paths = E.paths
